@@ -369,6 +369,11 @@ func (s *Server) ServeHTTP(w http.ResponseWriter, r *http.Request) {
 		// We absolutely need to be sure we stay alive up here,
 		// even though, in theory, the errors middleware does this.
 		if rec := recover(); rec != nil {
+			if rec == http.ErrAbortHandler {
+				// a handler aborts the response (it cannot be completed): that is
+				// for net/http, which closes the connection without further ado
+				panic(rec)
+			}
 			log.Printf("[PANIC] %v", rec)
 			DefaultErrorFunc(w, r, http.StatusInternalServerError)
 		}
